@@ -279,3 +279,9 @@ def run(ctx) -> None:
     cases = st.fixed_dictionaries({"op": st.sampled_from(OPS), "good": st.booleans(), "pre": st.lists(spec, max_size=2),
                                    "post": st.lists(spec, max_size=2), "two_pages": st.booleans(), "prepared": st.booleans()})
     ctx.hyp("mixes", cases, lambda c: _run_one(ctx, c), ctx.n(2500, 480000))
+
+    # coverage-guided search (atheris/libFuzzer) over the same structured input space; an additional search,
+    # the verdict never depends on it being available
+    from .. import fuzzrun
+    if not ctx.quick or ctx.shard < 2:
+        fuzzrun.run_atheris(ctx, "c14", 15000 if ctx.quick else 300000, check_case)
